@@ -5,6 +5,7 @@ import Anytree.Drv.Walk
 import Anytree.Drv.Export
 import Anytree.Drv.Dict
 import Anytree.Drv.Render
+import Anytree.Drv.Resolver
 /-!
 Line-protocol driver: one JSON case per input line, one JSON object per output line:
 `{"mirror": <what the model of the code computes>, "spec": <what the specification demands>}`
@@ -23,6 +24,7 @@ def dispatch (j : Json) : R (Json × Json) := do
   | "export" => runExport j
   | "dict" => runDict j
   | "render" => runRender j
+  | "resolve" => runResolve j
   | f => throw s!"unknown family {f}"
 
 def handle (line : String) : String :=
